@@ -20,9 +20,9 @@ def run(ctx):
     ctx.static_and_proofs("store")
     quick = ctx.tier == "quick"
     if quick:
-        args = ["-plant", "6", "-plantcz", "3", "-submit", "4", "-dup", "12", "-interleave", "18", "-collide", "10", "-fault", "16", "-bigbatch", "2", "-cancel", "10", "-cancelburst", "16"]
+        args = ["-plant", "6", "-plantcz", "3", "-submit", "4", "-dup", "12", "-interleave", "18", "-collide", "10", "-fault", "20", "-bigbatch", "2", "-cancel", "10", "-cancelburst", "16"]
     else:
-        args = ["-plant", "60", "-plantcz", "30", "-submit", "40", "-dup", "120", "-interleave", "240", "-collide", "100", "-fault", "160", "-bigbatch", "12", "-cancel", "100", "-cancelburst", "64", "-kill", "300"]
+        args = ["-plant", "60", "-plantcz", "30", "-submit", "40", "-dup", "120", "-interleave", "240", "-collide", "100", "-fault", "200", "-bigbatch", "12", "-cancel", "100", "-cancelburst", "64", "-kill", "300"]
     cases = ctx.harness("c14", args, timeout=3000)
     if cases is None:
         ctx.evidence(dict(evaluations=0, distinct_nontrivial=0, rule="harness did not run", samples=[]))
